@@ -15,6 +15,9 @@ list `pts`; `IsMinNorm K v` = `v ∈ K` and no point of `K` has smaller norm;
 Bands the code treats by thresholds are excluded by explicit, named hypotheses
 (`hband`, `hfaces`, `hbound`); what the as-is code does inside such a band is shown by the
 `…_asIs_counterexample` theorems (known findings F-C18-jolt-abs-eps, F-C18-orig-abs-eps).
+The triangle routine is modelled as repaired in /repo commit ea3a5ff (relative degeneracy test
+`|n|² ≤ EPSILON·L⁴`); `closestPointTriangle_asIs_before_fix` keeps the old absolute test.
+Inside the new degenerate band `triangle_sliver_bound` bounds the error by `sqrt(EPSILON)·L`.
 
 Not proved (see PARTIAL in harness/props/c18.py): `backup_optimal` (Johnson's theorem: the
 best candidate with positive cofactors is the minimiser of the hull) — replaced by
@@ -28,6 +31,12 @@ import D3.Proofs.SimplexOrig
 namespace D3
 namespace C18
 open Simplex
+
+/-- `TriRegular` for a concrete triangle: all squared edges `≤ L`, `ε·L² < |n|²` (by `norm_num`) -/
+macro "tri_regular " L:term : term =>
+  `(triRegular_of_bound _ _ _ $L (by norm_num [V3.dot_def]) (by norm_num [V3.dot_def])
+      (by norm_num [V3.dot_def])
+      (by norm_num [V3.dot_def, cross_x, cross_y, cross_z, EPS, D3.Gen.utils__EPSILON]))
 
 /-! ## the convexity / variational lemma -/
 
@@ -79,34 +88,101 @@ theorem line_same (a : V) :
 
 /-! ## Jolt solver: triangle -/
 
-/-- **triangle_spec.** If the code's degeneracy test `|n|² < EPSILON_SQR` fails (`n` = the
-normal the code computes from the two shorter edges), the seven Voronoi regions of
+/-- **triangle_spec** (code after repair ea3a5ff).  `TriRegular a b c` is the negation of the
+code's degeneracy test `|n|² ≤ EPSILON · L⁴` (`n` = the normal the code computes from the two
+shorter edges, `L²` = the longest squared edge; i.e. altitude over the longest edge above
+`sqrt(EPSILON)·L`).  For a regular triangle the seven Voronoi regions of
 `closest_point_triangle` are exhaustive, no division is by zero, the returned point is the
 minimum-norm point of the triangle, and the set bits (1…7) name a sub-simplex whose hull
-contains it.  (Per-region theorems: `Simplex.tri_regionA/B/C/AB/AC/BC/Face`,
-exhaustiveness: `Simplex.tri_exhaustive_scalar`.) -/
-theorem triangle_spec (a b c : V)
-    (h : ¬ V3.dot (triNormal a b c) (triNormal a b c) < EPS2) :
+contains it.  (Per-region theorems: `Simplex.tri_regionA/B/C/AB/AC/BC/Face`, exhaustiveness:
+`Simplex.tri_exhaustive_scalar`.) -/
+theorem triangle_spec (a b c : V) (h : TriRegular a b c) :
     ∃ r, closestPointTriangle a b c = .ok r ∧ IsMinNorm (hullSet [a, b, c]) r.pt ∧
       hullSet (selectBits r.set [a, b, c]) r.pt ∧ 1 ≤ r.set ∧ r.set ≤ 7 := by
   obtain ⟨r, h1, h2, h3, h4, h5, _⟩ := closestPointTriangle_spec a b c h
   exact ⟨r, h1, h2, h3, h4, h5⟩
 
-example : ¬ V3.dot (triNormal (⟨1, 0, 1⟩ : V) ⟨-1, 1, 1⟩ ⟨-1, -1, 1⟩)
-    (triNormal (⟨1, 0, 1⟩ : V) ⟨-1, 1, 1⟩ ⟨-1, -1, 1⟩) < EPS2 := by
-  rw [triNormal_eq]
-  norm_num [V3.dot_def, cross_x, cross_y, cross_z, EPS2, D3.Gen.gjk__gjk_jolt__EPSILON_SQR]
+/-- the hypothesis spelled out -/
+theorem triRegular_iff (a b c : V) : TriRegular a b c ↔
+    EPS * maxEdgeLenSq a b c * maxEdgeLenSq a b c <
+      V3.dot (triNormal a b c) (triNormal a b c) := by
+  unfold TriRegular; exact not_le
+
+example : TriRegular (⟨1, 0, 1⟩ : V) ⟨-1, 1, 1⟩ ⟨-1, -1, 1⟩ := tri_regular 5
+
+/-- the same theorem for the routine as it was before the repair (absolute test
+`|n|² ≥ EPSILON_SQR`): the region cascade itself was and is correct in exact arithmetic -/
+theorem triangle_spec_before_fix (a b c : V)
+    (h : ¬ V3.dot (triNormal a b c) (triNormal a b c) < EPS2) :
+    ∃ r, closestPointTriangle_asIs_before_fix a b c = .ok r ∧ IsMinNorm (hullSet [a, b, c]) r.pt ∧
+      hullSet (selectBits r.set [a, b, c]) r.pt ∧ 1 ≤ r.set ∧ r.set ≤ 7 := by
+  obtain ⟨r, h1, h2, h3, h4, h5, _⟩ := closestPointTriangle_before_fix_spec a b c h
+  exact ⟨r, h1, h2, h3, h4, h5⟩
 
 /-- in exact arithmetic the two normals the code chooses between coincide -/
 theorem triangle_normal (a b c : V) : triNormal a b c = V3.cross (b - a) (c - a) :=
   triNormal_eq a b c
 
-/-- **triangle, degenerate branch (what is computed).** If `|n|² < EPSILON_SQR` the result is
-that of the collinear fallback "best of the three edges" (no minimality claim: partial). -/
+/-- **triangle, degenerate branch (what is computed).** If `|n|² ≤ EPSILON·L⁴` the result is
+that of the fallback "best of the three edges". -/
 theorem triangle_degenerate_unfold (a b c : V)
-    (h : V3.dot (triNormal a b c) (triNormal a b c) < EPS2) :
+    (h : V3.dot (triNormal a b c) (triNormal a b c) ≤
+      EPS * maxEdgeLenSq a b c * maxEdgeLenSq a b c) :
     closestPointTriangle a b c = closestPointTriangleDegenerate a b c := by
   simp only [closestPointTriangle, h, if_true]
+
+/-- **triangle, degenerate band** (`|n|² ≤ EPSILON·L⁴`: slivers, near-duplicate points, exactly
+collinear points; edges exact (`EdgeOK`)).  The fallback returns a point of an edge, with
+correct set bits, that minimises the norm over the three edges, and its norm exceeds the norm
+of no point of the triangle — in particular not the minimum norm — by more than
+`sqrt(EPSILON · L²)` (`sqrt(EPSILON)` times the longest edge: the bound on the altitude).
+This replaces the former "band excluded" gap for slivers. -/
+theorem triangle_sliver_bound (a b c : V)
+    (hdeg : V3.dot (triNormal a b c) (triNormal a b c) ≤
+      EPS * maxEdgeLenSq a b c * maxEdgeLenSq a b c)
+    (hab : EdgeOK a b) (hac : EdgeOK a c) (hbc : EdgeOK b c) :
+    ∃ r, closestPointTriangle a b c = .ok r ∧
+      hullSet (selectBits r.set [a, b, c]) r.pt ∧ 1 ≤ r.set ∧ r.set ≤ 7 ∧
+      (∀ y, (hullSet [a, b] y ∨ hullSet [a, c] y ∨ hullSet [b, c] y) →
+        V3.normSq r.pt ≤ V3.normSq y) ∧
+      ∀ x, hullSet [a, b, c] x →
+        V3.norm r.pt ≤ V3.norm x + Real.sqrt (EPS * maxEdgeLenSq a b c) := by
+  obtain ⟨r, h1, h2, h3, h4, _, h5, h6⟩ := closestPointTriangle_sliver_bound a b c hdeg hab hac hbc
+  exact ⟨r, h1, h2, h3, h4, h5, h6⟩
+
+/-- every point of a triangle is within the altitude over the longest edge of one of the edges -/
+theorem sliver_near_edges (a b c x : V) (hx : hullSet [a, b, c] x) :
+    ∃ y, (hullSet [a, b] y ∨ hullSet [a, c] y ∨ hullSet [b, c] y) ∧
+      V3.normSq (x - y) * maxEdgeLenSq a b c ≤
+        V3.dot (V3.cross (b - a) (c - a)) (V3.cross (b - a) (c - a)) :=
+  sliver_near_boundary a b c x hx
+
+/-- non-vacuity of `triangle_sliver_bound`: the sliver `(−½,−3e-9,0), (½,−3e-9,0), (0,7e-9,0)`
+(altitude 1e-8) is in the degenerate band and has regular edges -/
+example : V3.dot (triNormal (⟨-0.5, -3e-9, 0⟩ : V) ⟨0.5, -3e-9, 0⟩ ⟨0, 7e-9, 0⟩)
+      (triNormal (⟨-0.5, -3e-9, 0⟩ : V) ⟨0.5, -3e-9, 0⟩ ⟨0, 7e-9, 0⟩) ≤
+      EPS * maxEdgeLenSq (⟨-0.5, -3e-9, 0⟩ : V) ⟨0.5, -3e-9, 0⟩ ⟨0, 7e-9, 0⟩ *
+        maxEdgeLenSq (⟨-0.5, -3e-9, 0⟩ : V) ⟨0.5, -3e-9, 0⟩ ⟨0, 7e-9, 0⟩ ∧
+    EdgeOK (⟨-0.5, -3e-9, 0⟩ : V) ⟨0.5, -3e-9, 0⟩ ∧ EdgeOK (⟨-0.5, -3e-9, 0⟩ : V) ⟨0, 7e-9, 0⟩ ∧
+    EdgeOK (⟨0.5, -3e-9, 0⟩ : V) ⟨0, 7e-9, 0⟩ := by
+  refine ⟨?_, Or.inl ?_, Or.inl ?_, Or.inl ?_⟩
+  · have h1 : (1 : ℝ) ≤ maxEdgeLenSq (⟨-0.5, -3e-9, 0⟩ : V) ⟨0.5, -3e-9, 0⟩ ⟨0, 7e-9, 0⟩ := by
+      refine le_trans ?_ (le_maxEdgeLenSq _ _ _).1
+      norm_num [V3.dot_def]
+    rw [triNormal_eq]
+    have hn : V3.dot (V3.cross ((⟨0.5, -3e-9, 0⟩ : V) - ⟨-0.5, -3e-9, 0⟩) ((⟨0, 7e-9, 0⟩ : V) - ⟨-0.5, -3e-9, 0⟩))
+        (V3.cross ((⟨0.5, -3e-9, 0⟩ : V) - ⟨-0.5, -3e-9, 0⟩) ((⟨0, 7e-9, 0⟩ : V) - ⟨-0.5, -3e-9, 0⟩)) = 1e-16 := by
+      norm_num [V3.dot_def, cross_x, cross_y, cross_z]
+    rw [hn]
+    have hE : (2e-16 : ℝ) ≤ EPS := by norm_num [EPS, D3.Gen.utils__EPSILON]
+    generalize maxEdgeLenSq (⟨-0.5, -3e-9, 0⟩ : V) ⟨0.5, -3e-9, 0⟩ ⟨0, 7e-9, 0⟩ = m at h1 ⊢
+    have hm2 : 1 ≤ m * m := by nlinarith
+    have h3 : (2e-16 : ℝ) * 1 ≤ EPS * (m * m) := mul_le_mul hE hm2 (by norm_num) (by linarith)
+    have h4 : EPS * m * m = EPS * (m * m) := by ring
+    rw [h4]
+    norm_num at h3 ⊢
+    linarith
+  all_goals norm_num [V3.dot_def, EPS2, D3.Gen.gjk__gjk_jolt__EPSILON_SQR]
 
 /-- **triangle_spec, collinear fallback.** For three exactly collinear points (`ab × ac = 0`)
 whose edges are each either of zero length or not below the length threshold (`EdgeOK`), the
@@ -137,7 +213,7 @@ theorem collinear_cover (a b c : V) (hcol : V3.cross (b - a) (c - a) = ⟨0, 0, 
 
 /-- **tetra_spec, positive orientation** (`D = det[b−a, c−a, d−a] > 0`, in exact arithmetic all
 four `signd` values equal `D`).  Excluded by name: `hband` — no plane value `signp` in the band
-`[−EPSILON, 0)`; `hfaces` — no face passes the code's degeneracy test `|n|² < EPSILON_SQR`;
+`[−EPSILON, 0)`; `hfaces` — no face passes the code's (repaired) degeneracy test `|n|² ≤ EPSILON·L⁴`;
 `hbound` — `|a|², |b|² < MAX_FLOAT` (the initial `best_dist_sq`).  Then the result is `.ok`,
 it is the minimum-norm point of the tetrahedron (the origin itself, with set `0b1111`, when no
 face is flagged; otherwise the best of the flagged faces), and the remapped set bits name a
@@ -148,10 +224,10 @@ theorem tetra_spec_pos (a b c d : V)
       (-EPS ≤ V3.dot a (V3.cross (c - a) (d - a)) → 0 ≤ V3.dot a (V3.cross (c - a) (d - a))) ∧
       (-EPS ≤ V3.dot a (V3.cross (d - a) (b - a)) → 0 ≤ V3.dot a (V3.cross (d - a) (b - a))) ∧
       (-EPS ≤ V3.dot b (V3.cross (d - b) (c - b)) → 0 ≤ V3.dot b (V3.cross (d - b) (c - b))))
-    (hfaces : ¬ V3.dot (triNormal a b c) (triNormal a b c) < EPS2 ∧
-      ¬ V3.dot (triNormal a c d) (triNormal a c d) < EPS2 ∧
-      ¬ V3.dot (triNormal a d b) (triNormal a d b) < EPS2 ∧
-      ¬ V3.dot (triNormal b d c) (triNormal b d c) < EPS2)
+    (hfaces : TriRegular a b c ∧
+      TriRegular a c d ∧
+      TriRegular a d b ∧
+      TriRegular b d c)
     (hbound : V3.dot a a < MAXF ∧ V3.dot b b < MAXF) :
     ∃ r, closestPointTetrahedron a b c d = .ok r ∧ IsMinNorm (hullSet [a, b, c, d]) r.pt ∧
       hullSet (selectBits r.set [a, b, c, d]) r.pt :=
@@ -164,10 +240,10 @@ theorem tetra_spec_neg (a b c d : V)
       (V3.dot a (V3.cross (c - a) (d - a)) ≤ EPS → V3.dot a (V3.cross (c - a) (d - a)) ≤ 0) ∧
       (V3.dot a (V3.cross (d - a) (b - a)) ≤ EPS → V3.dot a (V3.cross (d - a) (b - a)) ≤ 0) ∧
       (V3.dot b (V3.cross (d - b) (c - b)) ≤ EPS → V3.dot b (V3.cross (d - b) (c - b)) ≤ 0))
-    (hfaces : ¬ V3.dot (triNormal a b c) (triNormal a b c) < EPS2 ∧
-      ¬ V3.dot (triNormal a c d) (triNormal a c d) < EPS2 ∧
-      ¬ V3.dot (triNormal a d b) (triNormal a d b) < EPS2 ∧
-      ¬ V3.dot (triNormal b d c) (triNormal b d c) < EPS2)
+    (hfaces : TriRegular a b c ∧
+      TriRegular a c d ∧
+      TriRegular a d b ∧
+      TriRegular b d c)
     (hbound : V3.dot a a < MAXF ∧ V3.dot b b < MAXF) :
     ∃ r, closestPointTetrahedron a b c d = .ok r ∧ IsMinNorm (hullSet [a, b, c, d]) r.pt ∧
       hullSet (selectBits r.set [a, b, c, d]) r.pt :=
@@ -180,9 +256,7 @@ example : ∃ r, closestPointTetrahedron (⟨0, 0, 1⟩ : V) ⟨1, 0, 1⟩ ⟨0,
   obtain ⟨r, h1, h2, _⟩ := tetra_spec_pos (⟨0, 0, 1⟩ : V) ⟨1, 0, 1⟩ ⟨0, 1, 1⟩ ⟨0, 0, 2⟩
     (by norm_num [V3.dot_def, cross_x, cross_y, cross_z])
     (by norm_num [V3.dot_def, cross_x, cross_y, cross_z, EPS, D3.Gen.utils__EPSILON])
-    (by
-      simp only [triNormal_eq]
-      norm_num [V3.dot_def, cross_x, cross_y, cross_z, EPS2, D3.Gen.gjk__gjk_jolt__EPSILON_SQR])
+    ⟨tri_regular 3, tri_regular 3, tri_regular 3, tri_regular 3⟩
     (by norm_num [V3.dot_def, MAXF, D3.Gen.utils__MAX_FLOAT])
   exact ⟨r, h1, h2⟩
 
@@ -215,14 +289,9 @@ theorem flat_cover (a b c d : V) (hD : V3.dot (d - a) (V3.cross (b - a) (c - a))
 /-- non-vacuity of `tetra_spec_flat`: the unit square in the plane `z = 1` -/
 example : ∃ r, closestPointTetrahedron (⟨0, 0, 1⟩ : V) ⟨1, 0, 1⟩ ⟨1, 1, 1⟩ ⟨0, 1, 1⟩ = .ok r ∧
     IsMinNorm (hullSet [(⟨0, 0, 1⟩ : V), ⟨1, 0, 1⟩, ⟨1, 1, 1⟩, ⟨0, 1, 1⟩]) r.pt := by
-  have hE : ∀ p q r : V, ¬ V3.dot (V3.cross (q - p) (r - p)) (V3.cross (q - p) (r - p)) < EPS2 →
-      FaceOK p q r := fun p q r h => Or.inl (by rw [triNormal_eq]; exact h)
   obtain ⟨r, h1, h2, _⟩ := tetra_spec_flat (⟨0, 0, 1⟩ : V) ⟨1, 0, 1⟩ ⟨1, 1, 1⟩ ⟨0, 1, 1⟩
     (by norm_num [V3.dot_def, cross_x, cross_y, cross_z])
-    (hE _ _ _ (by norm_num [V3.dot_def, cross_x, cross_y, cross_z, EPS2, D3.Gen.gjk__gjk_jolt__EPSILON_SQR]))
-    (hE _ _ _ (by norm_num [V3.dot_def, cross_x, cross_y, cross_z, EPS2, D3.Gen.gjk__gjk_jolt__EPSILON_SQR]))
-    (hE _ _ _ (by norm_num [V3.dot_def, cross_x, cross_y, cross_z, EPS2, D3.Gen.gjk__gjk_jolt__EPSILON_SQR]))
-    (hE _ _ _ (by norm_num [V3.dot_def, cross_x, cross_y, cross_z, EPS2, D3.Gen.gjk__gjk_jolt__EPSILON_SQR]))
+    (Or.inl (tri_regular 2)) (Or.inl (tri_regular 2)) (Or.inl (tri_regular 2)) (Or.inl (tri_regular 2))
     (by norm_num [V3.dot_def, MAXF, D3.Gen.utils__MAX_FLOAT])
   exact ⟨r, h1, h2⟩
 
@@ -413,17 +482,13 @@ theorem jolt_tetra_band_asIs_counterexample_real :
       apply V3.ext' <;> norm_num
     rw [e] at h; exact h
   refine ⟨hin, ?_⟩
-  have hE : ∀ p q r : V, ¬ V3.dot (V3.cross (q - p) (r - p)) (V3.cross (q - p) (r - p)) < EPS2 →
-      FaceOK p q r := fun p q r h => Or.inl (by rw [triNormal_eq]; exact h)
   refine tetra_band_asIs _ _ _ _ _ _ _ _ 1
     (planes_neg _ _ _ _ (by norm_num [V3.dot_def, cross_x, cross_y, cross_z]))
     (Or.inl (decide_eq_true (by
       norm_num [V3.dot_def, cross_x, cross_y, cross_z, EPS, D3.Gen.utils__EPSILON])))
     (by norm_num [V3.dot_def, cross_x, cross_y, cross_z])
-    (hE _ _ _ (by norm_num [V3.dot_def, cross_x, cross_y, cross_z, EPS2, D3.Gen.gjk__gjk_jolt__EPSILON_SQR]))
-    (hE _ _ _ (by norm_num [V3.dot_def, cross_x, cross_y, cross_z, EPS2, D3.Gen.gjk__gjk_jolt__EPSILON_SQR]))
-    (hE _ _ _ (by norm_num [V3.dot_def, cross_x, cross_y, cross_z, EPS2, D3.Gen.gjk__gjk_jolt__EPSILON_SQR]))
-    (hE _ _ _ (by norm_num [V3.dot_def, cross_x, cross_y, cross_z, EPS2, D3.Gen.gjk__gjk_jolt__EPSILON_SQR]))
+    (Or.inl (tri_regular 1e-11)) (Or.inl (tri_regular 1e-11)) (Or.inl (tri_regular 1e-11))
+    (Or.inl (tri_regular 1e-11))
     (by norm_num [V3.dot_def, MAXF, D3.Gen.utils__MAX_FLOAT]) hin
 
 /-- the point returned for a triangle, as an option -/
@@ -432,17 +497,54 @@ def triPoint (r : Except Err (CP Rat)) : Option (V3 Rat × Nat) :=
   | .ok c => some (c.pt, c.set)
   | .error _ => none
 
-/-- **F-C18-jolt-abs-eps (triangle).** For `1e-9·[(1,0,1),(−1,1,1),(−1,−1,1)]` the projection of
-the origin, `(0,0,1e-9)`, lies inside the triangle (squared distance `1e-18`), but
-`0 < |n|² < EPSILON_SQR` sends the code to the edge fallback, which returns
-`(2e-10, 4e-10, 1e-9)` on edge AB (squared distance `1.2e-18`). -/
+/-- **former F-C18-jolt-abs-eps (triangle), before repair ea3a5ff.** For
+`1e-9·[(1,0,1),(−1,1,1),(−1,−1,1)]` the projection of the origin, `(0,0,1e-9)`, lies inside the
+triangle (squared distance `1e-18`), but the OLD absolute test `0 < |n|² < EPSILON_SQR` sent the
+code to the edge fallback, which returned `(2e-10, 4e-10, 1e-9)` on edge AB (squared distance
+`1.2e-18`). -/
 theorem jolt_triangle_band_asIs_counterexample :
-    triPoint (closestPointTriangle (α := Rat) ⟨1e-9, 0, 1e-9⟩ ⟨-1e-9, 1e-9, 1e-9⟩ ⟨-1e-9, -1e-9, 1e-9⟩)
-      = some (⟨2e-10, 4e-10, 1e-9⟩, 3) ∧
+    triPoint (closestPointTriangle_asIs_before_fix (α := Rat) ⟨1e-9, 0, 1e-9⟩ ⟨-1e-9, 1e-9, 1e-9⟩
+      ⟨-1e-9, -1e-9, 1e-9⟩) = some (⟨2e-10, 4e-10, 1e-9⟩, 3) ∧
     (0.5 : Rat) * 1e-9 + 0.25 * (-1e-9) + 0.25 * (-1e-9) = 0 ∧
     (0.5 : Rat) * 0 + 0.25 * 1e-9 + 0.25 * (-1e-9) = 0 ∧
     (1e-9 : Rat) * 1e-9 < 2e-10 * 2e-10 + 4e-10 * 4e-10 + 1e-9 * 1e-9 := by
   refine ⟨?_, ?_, ?_, ?_⟩ <;> decide +kernel
+
+/-- **… and after the repair** the relative test is scale free: the same tiny triangle is
+regular and the interior point `(0,0,1e-9)` with set `0b0111` is returned. -/
+theorem jolt_triangle_band_fixed :
+    triPoint (closestPointTriangle (α := Rat) ⟨1e-9, 0, 1e-9⟩ ⟨-1e-9, 1e-9, 1e-9⟩
+      ⟨-1e-9, -1e-9, 1e-9⟩) = some (⟨0, 0, 1e-9⟩, 7) := by
+  decide +kernel
+
+/-- branch id of a result (`7, 8, 9` = degenerate fallback, `0…6` = region cascade) -/
+def triBranch (r : Except Err (CP Rat)) : Option Nat :=
+  match r with
+  | .ok c => some c.br
+  | .error _ => none
+
+/-- **rounding duplicate.** `a = (−4.4,0,−5.8)`, `b = (2,0,−1)`, `c = b + (2⁻⁵¹,0,0)` (third point
+= second point up to one ulp): `|n|² ≈ 4.5e-30` is above the old absolute threshold
+`EPSILON_SQR = 4.9e-32`, so the routine before the repair ran the region cascade (branch 2)
+on rounding noise, while the repaired test (`|n|² ≤ EPSILON·L⁴ ≈ 9e-13`) classifies the
+triangle as degenerate (fallback, branch 7). -/
+theorem rounding_duplicate_classification :
+    triBranch (closestPointTriangle_asIs_before_fix (α := Rat) ⟨-4.4, 0, -5.8⟩ ⟨2, 0, -1⟩
+      ⟨2 + 4.440892098500626e-16, 0, -1⟩) = some 2 ∧
+    triBranch (closestPointTriangle (α := Rat) ⟨-4.4, 0, -5.8⟩ ⟨2, 0, -1⟩
+      ⟨2 + 4.440892098500626e-16, 0, -1⟩) = some 7 := by
+  constructor <;> decide +kernel
+
+/-- the coordinator's witness `c = b + (4e-16, 0, 3e-16)`: the offset is exactly parallel to
+`b − a = (6.4, 0, 4.8)`, so the three points are exactly collinear in exact arithmetic
+(`n = 0`) and both the old and the repaired test send it to the fallback (in floats
+`|n|² ≈ 1.6e-61`); the two tests differ on offsets that are not parallel, see above. -/
+theorem rounding_duplicate_collinear :
+    triBranch (closestPointTriangle_asIs_before_fix (α := Rat) ⟨-4.4, 0, -5.8⟩ ⟨2, 0, -1⟩
+      ⟨2 + 4e-16, 0, -1 + 3e-16⟩) = some 7 ∧
+    triBranch (closestPointTriangle (α := Rat) ⟨-4.4, 0, -5.8⟩ ⟨2, 0, -1⟩
+      ⟨2 + 4e-16, 0, -1 + 3e-16⟩) = some 7 := by
+  constructor <;> decide +kernel
 
 /-- squared distance and number of points returned by the backup procedure -/
 def origSummary (r : Except Err (SimplexOrig.Result Rat)) : Option (Rat × Nat) :=
